@@ -42,13 +42,23 @@ TEXTS = U.LOOKALIKE_STRINGS + ["[1,", "{'a': 1", '{"a": }', "nul", "tru", "1e", 
                                "lambda: 1", "x = 1", "1 if 1 else 2", "[x for x in y]", "b'ab'", "f'{1}'", "...", "None,", "é1", "１２"]
 
 
+# characters str.strip()/str.split() treat as whitespace but bytes.strip() and the JSON grammar do not
+EXOTIC_WS = ["\x1c", "\x1d", "\x1e", "\x1f", "\x85", "\xa0", "\u2000", "\u2003", "\u2028", "\u2029", "\u3000", "\x0b", "\x0c", "\ufeff", "\u200b"]
+PARSABLE = ["1", "[1,2]", '{"a": 1}', "true", "null", "(1, 2)", "'x'", "1.5", "[]", "None", "True", '"s"']
+
+
+def exotic_padded():
+    return st.builds(lambda a, body, b, where: (a + body if where == 0 else body + b if where == 1 else a + body + b),
+                     st.sampled_from(EXOTIC_WS), st.sampled_from(PARSABLE), st.sampled_from(EXOTIC_WS), st.integers(0, 2))
+
+
 def outcome(f, *a):
     k, r = tl.call(f, *a)
     return ("exc", tl.exc_name(r)) if k == "exc" else ("ok", snapshot(r))
 
 
 def strings_for(p, vs):
-    alts = [st.sampled_from(TEXTS), st.sampled_from(LONG),
+    alts = [st.sampled_from(TEXTS), st.sampled_from(LONG), exotic_padded(),
             st.text(alphabet=st.characters(exclude_categories=["Cs"]), max_size=12)]
     if vs is not None:
         def render(v, form):
@@ -74,7 +84,7 @@ def check_carriers(p, s, col):
     for c in inputs.CARRIERS:
         col.ev()
         outs[c] = outcome(tl.unmarshal, p.T, inputs.carry(s, c))
-    special = (not s.isascii()) or s in TEXTS or len(s) > 200
+    special = (not s.isascii()) or s in TEXTS or len(s) > 200 or any(ch in s for ch in "\x1c\x1d\x1e\x1f\x0b\x0c")
     for c in ("bytearray", "memoryview(bytearray)"):
         col.nt(p.key + s[:200] + str(len(s)) + c)
     if special:
@@ -153,7 +163,8 @@ def direct_case(draw):
                            st.lists(st.one_of(st.none(), st.booleans(), st.integers(), st.text(max_size=3)), max_size=4)))
         return kind, repr(v), draw(st.sampled_from(inputs.CARRIERS))
     if kind == "plain":
-        return kind, draw(st.one_of(st.sampled_from(TEXTS + LONG), st.text(alphabet=st.characters(exclude_categories=["Cs"]), max_size=15))), \
+        return kind, draw(st.one_of(st.sampled_from(TEXTS + LONG), exotic_padded(), exotic_padded(),
+                                    st.text(alphabet=st.characters(exclude_categories=["Cs"]), max_size=15))), \
             draw(st.sampled_from(inputs.CARRIERS))
     return kind, draw(st.sampled_from(["1", "None", "[1, 2]", "{'a': 1}", "1.5", "object()", "(1, 2)", "{1}", "True"])), "obj"
 
